@@ -264,6 +264,15 @@ def _snapshot_rule_config(rule) -> dict:
 # ---------------------------------------------------------------------------------
 
 RULE_BUDGET = 3_000_000  # function starts inside pytestarch per assert_applies (ordinary: 10^2..10^5)
+
+
+def rule_budget(state, factor=1):
+    """The library compares every matched subject with every matched object (about 30 function starts per pair), so the
+    budget grows with the square of the architecture's size: 10x what a rule matching ALL modules on both sides needs."""
+    n = len(state[0]) if state else 0
+    return factor * (RULE_BUDGET + 300 * n * n)
+
+
 SCAN_BUDGET = 60_000_000  # per get_evaluable_architecture (ordinary: 10^3..10^6)
 TRACE_ATTR = "_pta_trace"
 POST_HOOKS: dict = {}  # class -> [callable(obj, entry)] run after every top-level fluent call (returned or raised)
@@ -599,14 +608,14 @@ def _wrap_rule_assert():
         exc = None
         HUB.depth += 1
         try:
-            with step_budget(RULE_BUDGET):
+            with step_budget(rule_budget(before)):
                 orig(self, evaluable)
             outcome, msg, et = "pass", None, None
         except AssertionError as e:
             exc, outcome, msg, et = e, "fail", str(e), "AssertionError"
         except StepBudgetExceeded as e:
             exc, outcome, msg, et = RuntimeError(f"step budget exhausted: {e}"), "error", str(e), "StepBudgetExceeded"
-            HUB.violation("C01", "evaluation-does-not-terminate", f"Rule.assert_applies exhausted its step budget ({e}); ordinary evaluations need 10^2..10^5 steps", {"cfg": cfg, "truth": [sorted(t) for t in (_truth_for(evaluable, before) or ())]})
+            HUB.violation("C01", "evaluation-does-not-terminate", f"Rule.assert_applies exhausted its step budget ({e}); ordinary evaluations need 10^2..10^5 steps, one matching all {len(before[0]) if before else '?'} modules on both sides a tenth of the budget", {"cfg": cfg, "truth": [sorted(t) for t in (_truth_for(evaluable, before) or ())]})
         except Exception as e:  # noqa: BLE001
             exc, outcome, msg, et = e, "error", str(e), type(e).__name__
         finally:
